@@ -1,4 +1,116 @@
-import SdModel.Model.Derive
+import SdModel.Lemmas.DeriveKnot
+
+/-!
+# C02 — replication: a follower applying the leader's successive diffs never diverges
+
+`(relTy t).equiv leader follower` : equal on unskipped plain / ordered / enum fields, unordered collections
+equal as multisets / maps, nested values equivalent recursively; NOTHING is required of skipped fields or of the
+element order of unordered collections (for key-only recursive maps: the key sets agree).
+The follower applies `diff(s₀, s₁), diff(s₁, s₂), …` computed by the leader on ITS OWN states.
+Theorem: every application returns normally and after every step the follower is again equivalent to the leader —
+by induction over a state sequence of arbitrary length; and the follower's own skipped fields never change.
+-/
 namespace C02
-theorem placeholder : True := trivial
+open Derive
+
+/-- the follower's successive states -/
+def followers (S : TySem) : Val → Val → List Val → Except String (List Val)
+  | _, _, [] => .ok []
+  | prev, f, s :: rest =>
+    match S.apply f (S.diff prev s) with
+    | .ok f' =>
+      match followers S s f' rest with
+      | .ok fs => .ok (f' :: fs)
+      | .error m => .error m
+    | .error m => .error m
+
+/-- state by state: the follower is well-typed and equivalent to the leader -/
+inductive AllEquiv (R : TyRel) : List Val → List Val → Prop
+  | nil : AllEquiv R [] []
+  | cons {s f ss fs} : R.equiv s f → R.wt f → AllEquiv R ss fs → AllEquiv R (s :: ss) (f :: fs)
+
+/-- **C02** for any type, any starting pair, any history -/
+theorem replication (t : Ty) (states : List Val) (s0 f0 : Val)
+    (h0 : (relTy t).wt s0) (hf0 : (relTy t).wt f0) (hs : ∀ s ∈ states, (relTy t).wt s)
+    (he : (relTy t).equiv s0 f0) :
+    ∃ fs, followers (semTy t) s0 f0 states = .ok fs ∧ AllEquiv (relTy t) states fs := by
+  induction states generalizing s0 f0 with
+  | nil => exact ⟨[], rfl, .nil⟩
+  | cons s rest ih =>
+    have hsw := hs s List.mem_cons_self
+    obtain ⟨f', h1, h2, h3⟩ := (spec_ty t).follow s0 s f0 h0 hsw hf0 he
+    have he' := (spec_ty t).post_equiv f0 s f' hf0 hsw h2 h3
+    obtain ⟨fs, h4, h5⟩ := ih s f' hsw h2 (fun x hx => hs x (List.mem_cons_of_mem _ hx)) he'
+    exact ⟨f' :: fs, by simp only [followers, h1, h4], .cons he' h2 h5⟩
+
+/-- the same when the leader ships `diff_ref` (converted) instead of `diff` -/
+theorem replication_ref (t : Ty) (states : List Val) (s0 f0 : Val)
+    (h0 : (relTy t).wt s0) (hf0 : (relTy t).wt f0) (hs : ∀ s ∈ states, (relTy t).wt s)
+    (he : (relTy t).equiv s0 f0) :
+    ∃ fs, followers { semTy t with diff := (semTy t).diffRef } s0 f0 states = .ok fs ∧ AllEquiv (relTy t) states fs := by
+  have : ({ semTy t with diff := (semTy t).diffRef } : TySem) = semTy t := by
+    cases hS : semTy t with
+    | mk d dr ap =>
+      have := (spec_ty t).ref_eq
+      rw [hS] at this
+      simp only [TySem.mk.injEq, and_true]
+      funext a b; exact this a b
+  rw [this]; exact replication t states s0 f0 h0 hf0 hs he
+
+/-! ### the follower's skipped fields never change -/
+
+/-- the values of the skipped fields, in declaration order -/
+def skippedVals : FS → Vals → List Val
+  | (true, _, _) :: fs, .cons v vs => v :: skippedVals fs vs
+  | (false, _, _) :: fs, .cons _ vs => skippedVals fs vs
+  | _, _ => []
+
+theorem spost_skipped (fs : FS) (x y z : Vals) (h : SPost fs x y z) : skippedVals fs z = skippedVals fs x := by
+  induction fs generalizing x y z with
+  | nil => cases x <;> cases z <;> rfl
+  | cons e fs ih =>
+    obtain ⟨sk, F, R⟩ := e
+    cases x with
+    | nil => cases y <;> cases z <;> simp [SPost] at h
+    | cons f fr =>
+    cases y with
+    | nil => cases z <;> simp [SPost] at h
+    | cons b bs =>
+    cases z with
+    | nil => simp [SPost] at h
+    | cons r rs =>
+      cases sk with
+      | true =>
+        simp only [SPost, if_true] at h
+        simp only [skippedVals, h.1, ih fr bs rs h.2]
+      | false =>
+        simp only [SPost] at h
+        simp only [skippedVals, ih fr bs rs h.2]
+
+def skippedOf (fs : FieldTys) : Val → List Val
+  | .strct vs => skippedVals (relFields fs) vs
+  | _ => []
+
+/-- after every step of any history the follower's skipped fields are those it started with -/
+theorem follower_skipped_fixed (fts : FieldTys) (states : List Val) (s0 f0 : Val)
+    (h0 : (relTy (.struct fts)).wt s0) (hf0 : (relTy (.struct fts)).wt f0) (hs : ∀ s ∈ states, (relTy (.struct fts)).wt s)
+    (he : (relTy (.struct fts)).equiv s0 f0) :
+    ∃ fs, followers (semTy (.struct fts)) s0 f0 states = .ok fs ∧ ∀ f' ∈ fs, skippedOf fts f' = skippedOf fts f0 := by
+  induction states generalizing s0 f0 with
+  | nil => exact ⟨[], rfl, by simp⟩
+  | cons s rest ih =>
+    have hsw := hs s List.mem_cons_self
+    obtain ⟨f', h1, h2, h3⟩ := (spec_ty (.struct fts)).follow s0 s f0 h0 hsw hf0 he
+    have he' := (spec_ty (.struct fts)).post_equiv f0 s f' hf0 hsw h2 h3
+    obtain ⟨fs, h4, h5⟩ := ih s f' hsw h2 (fun x hx => hs x (List.mem_cons_of_mem _ hx)) he'
+    have hsk : skippedOf fts f' = skippedOf fts f0 := by
+      simp only [relTy, structRel] at h3
+      obtain ⟨x, y, z, rfl, rfl, rfl, hp⟩ := h3
+      exact spost_skipped _ x y z hp
+    refine ⟨f' :: fs, by simp only [followers, h1, h4], ?_⟩
+    intro g hg
+    rcases List.mem_cons.mp hg with rfl | hg
+    · exact hsk
+    · rw [h5 g hg, hsk]
+
 end C02
